@@ -1,0 +1,12 @@
+//go:build verif
+
+package scheduler
+
+import "github.com/ngicks/mockable"
+
+// VerifSetClock replaces the clock. Verification builds only.
+func (s *Scheduler) VerifSetClock(c mockable.Clock) {
+	s.stepMu.Lock()
+	defer s.stepMu.Unlock()
+	s.clock = c
+}
